@@ -130,7 +130,7 @@ func TestVerifC11Filter(t *testing.T) {
 		"root-name", "match-private-suffix-itself", "match-unlisted-tld", "sfx-nested-private",
 		"host-under-nested-private-suffix", "listed-outer-private-zone", "list-has-line-of-255-or-more",
 		"list-file-larger-than-max-size", "list-file-size-equal-max", "list-file-size-max-plus-1", "list-file-size-max-minus-1",
-		"list-from-cache-file", "list-from-file-url")
+		"list-from-cache-file", "list-from-file-url", "listed-name-not-a-strict-hostname-queried")
 	st.Finish(t)
 
 	if p := vc11SelfCheck(); p != "" {
@@ -394,6 +394,17 @@ func TestVerifC11Filter(t *testing.T) {
 
 				if self {
 					classes = append(classes, "match-self")
+				}
+
+				// Every listed name that decides is a legal DNS name but not
+				// a strict host name.
+				odd := true
+				for _, m := range exp.mustListed {
+					odd = odd && !vc11StrictHostname(m)
+				}
+
+				if odd {
+					classes = append(classes, "listed-name-not-a-strict-hostname-queried")
 				}
 
 				// Only names inside the complete public suffix but above the
